@@ -40,6 +40,27 @@ def gen(chk, binary, tier):
         c.append(sc)
     cc.refine_scripts(binary, c, [["L", "L", "G"], ["L", "G", "g", "W"], ["G", "g"]], rng)
     streams.append(("slow-refresh", c))
+    # (d) the SAME (value, error) passed to Set again while the first one is still fresh / stale: the second Set is a new
+    #     result with its own completion instant, so every window restarts from it
+    d = []
+    for _ in range(60 if quick else 600):
+        sc = cc.base_script(rng, nkeys=1, nacts=1, horizon_mult=1, set_pct=0)
+        sc.acts = []
+        v, e = 7000000 + rng.below(3), rng.choice([0, 0, 0, 3])
+        E = sc.ee if e else sc.ne
+        t0 = 16 * rng.range(0, 8)
+        sc.add(t0, "S", 0, v, e)
+        gap = rng.choice([E // 4, E // 2, E - 16, E + 16, E + E // 2])
+        sc.add(t0 + gap - gap % 16 + 16, "S", 0, v, e)
+        t1 = t0 + gap - gap % 16 + 16
+        if rng.chance(1, 3):
+            sc.add(t0 + 2 * gap - (2 * gap) % 16 + 32, "S", 0, v, e)
+        elif t1 - t0 < E:
+            # a Load in the window that is stale relative to the first Set but fresh relative to the second
+            sc.add(t0 + E + rng.choice([1, 3, 5]), rng.choice(["L", "L", "G"]), 0)
+        d.append(sc)
+    cc.refine_scripts(binary, d, [["G", "G", "L"], ["L", "G", "g"]], rng)
+    streams.append(("repeated-identical-set", d))
     return streams
 
 
